@@ -32,7 +32,7 @@ LEVEL = "proof"
 TECHNIQUE = ("Lean 4 proofs over tables regenerated from the source (exception hierarchy / throw sites / catch chains; buffer sizes and guards) "
              "and over hand models of the fixed-buffer loops, + injection/number correspondence and sanitizer-backed malformed-input search "
              "against the working-tree library")
-LEVEL_TEXT = ("Partial machine-checked proof (34 theorems, Props/C03.lean). Proved for all inputs: (a) error mapping over the regenerated class table and catch "
+LEVEL_TEXT = ("Partial machine-checked proof (41 theorems, Props/C03.lean). Proved for all inputs: (a) error mapping over the regenerated class table and catch "
               "chains: C++ handler dispatch is first-match; each of compileStylesheet/parseSource/doTransform ends in catch(...) with non-zero statuses, so whatever is "
               "thrown the method returns a status (every_exception_caught); for the four library exception families with a non-empty text, and for bad_alloc / Xerces "
               "OutOfMemoryException / DOMException / std::exception always, the message is non-empty; no typed handler is dead; every exported int C function reaches only "
@@ -42,16 +42,19 @@ LEVEL_TEXT = ("Partial machine-checked proof (34 theorems, Props/C03.lean). Prov
               "(with and without its no-progress guard), xsl:number's backwards walk, the XPath tokenizer's scans, and definedness of two double->integer conversions (two-sided in "
               "their range guards); (c) the stylesheet handler's decision tables, regenerated: no element token falls through, and with-param / sort / when / otherwise are refused outside "
               "the parents the XSLT content model names; (d) the recursion guard of lazily evaluated top-level variables: for every dependency graph the evaluation ends in a value or a "
-              "circular-definition error within N+1 nested evaluations (whole-stack search, as the regenerated flag confirms). The memory-safety / UB / leak / hang part of the property for all other code is searched, not proved: malformed and adversarial stylesheets, "
+              "circular-definition error within N+1 nested evaluations (whole-stack search, as the regenerated flag confirms); (e) every getMessage overload's character limit fits its "
+              "stack buffer (regenerated overload table and catalogue); (f) XalanParsedURI::parse reads inside its buffer (exactly sized if the regenerated flag says its two free-standing tests are bounded, else only with a "
+              "terminating 0) and resolve is total: the dot-segment removal never indexes outside the path and terminates, for every base and reference. The memory-safety / UB / leak / hang part of the property for all other code is searched, not proved: malformed and adversarial stylesheets, "
               "sources, XPath strings, parameters and URLs through every entry point (sanitizer build in the thorough tier), each followed by a known-good transformation, plus "
               "re-use of one compiled stylesheet after an aborted run, more decimal-formats than the formatter cache holds, buffer-boundary outputs, failing imports and a "
               "template-recursion depth ramp including recursion without end, the complete (parent, child, attribute-variant) matrix of XSLT elements, and error-path families (failing modules at import/include depth 1..3, failing document() loads, "
-              "extension elements, reference cycles of length 1..5) on a counting memory manager that must show no outstanding block after the transformer is destroyed.")
-LEVEL_NOTE = ("Trusted: Lean kernel (leanchecker in the thorough tier); axioms propext/Classical.choice/Quot.sound only; translate/c03_exceptions.py, c03_buffers.py (regex readers of the "
+              "extension elements, reference cycles of length 1..5) on a counting memory manager that must show no outstanding block after the transformer is destroyed; every catalogue message through every overload and 33 quoting "
+              "error kinds with substituted texts of 0..70000 characters; URI references x bases directly and through include/import/document().")
+LEVEL_NOTE = ("Trusted: Lean kernel (leanchecker in the thorough tier); axioms propext/Classical.choice/Quot.sound only; translate/c03_exceptions.py, c03_buffers.py, c03_messages.py (regex readers of the "
               "C++ source and the Xerces headers) and c03_inventory.py (clang-14 typed AST); the hand transcriptions in lean/XalanModel/C03/*.lean (int2alphaCount, "
               "ScalarToDecimalString and the number path are validated by the correspondence run; the conflicts, transcode, getPreviousNode and tokenizer models are tied by shape "
               "checks of the translator only and abstract pattern matching, the transcoder and DOM navigation into parameters with the stated hypotheses: table size <= "
-              "m_patternCount, transcoder makes source progress whenever it writes, previous node has a smaller document-order number). Assumed: glibc sprintf(\"%.Nf\") stores "
+              "m_patternCount, transcoder makes source progress whenever it writes, previous node has a smaller document-order number). Assumed: Xerces-C loadMsg/XMLString::replaceTokens never store more than maxChars characters + NUL; the buffers handed to XalanParsedURI by Xalan itself are c_str()s (terminating 0). glibc sprintf(\"%.Nf\") stores "
               "sign+digits+1+N characters + NUL and sprintf(\"%.17e\") an exponent field of at most three digits. NOT proved, only searched with sanitizers "
               "and bounded by generator coverage: memory safety, undefined behaviour, leaks and termination of all other code (XPath parser and evaluator, stylesheet builder and "
               "executor, serializers, source tree, Xerces/ICU); thread interleavings. The mutation generator does not create unbounded template recursion (three fixed endless "
@@ -95,6 +98,13 @@ THEOREMS = [P + n for n in (
     "guard_stack_every_cycle_detected",
     "guard_stack_reports_first_repetition",
     "guard_top_only_counterexample",
+    "message_buffers_bounded",
+    "uri_dot_removal_in_bounds_and_terminates",
+    "uri_parse_in_bounds",
+    "uri_parse_terminated_in_bounds",
+    "uri_parse_unterminated_counterexample",
+    "uri_resolve_total",
+    "uri_unguarded_decrement_counterexample",
 )]
 
 INJECT_CLASSES = ["XSLException", "XalanXPathException", "XPathParserException", "XSLTProcessorException", "ElemMessageTerminateException",
@@ -370,7 +380,7 @@ def run(ctx):
                 "past XML well-formedness of the stylesheet (status 0, -1, or an XSLT/XPath-level message), or exercised a modelled mechanism "
                 "(injection, number path, guarded buffer); distinct = distinct request text")
     ctx.trusted += [
-        "translate/c03_exceptions.py, translate/c03_buffers.py (regex readers of the working tree and the Xerces-C headers)",
+        "translate/c03_exceptions.py, translate/c03_buffers.py, translate/c03_messages.py (regex readers of the working tree, the message catalogue and the Xerces-C headers)",
         "harness/c03_fuzz.cpp + checks/c03.py + gen/c03_gen.py (generators, crash/hang attribution, specification predicate)",
         "glibc sprintf(\"%.Nf\") stores sign+integer digits+1+N characters + NUL (model parameter; validated on the generated doubles)",
         "modelled, not verified: everything outside the generated tables and the three transcribed loops — reached only by the sanitizer-backed search",
@@ -384,6 +394,7 @@ def run(ctx):
     ok2, _ = ctx.translate("c03_buffers")
     ctx.translate("c03_inventory")
     ctx.translate("c03_structure")
+    ctx.translate("c03_messages")
     ctx.lean("XalanModel.Props.C03", THEOREMS, extra_targets=["xm_c03"])
     model = ctx.exe("xm_c03")
     harness = common.build_harness("c03_fuzz", ["c03_fuzz.cpp"], flavor=flavor, sanitize=(flavor == "asan"))
@@ -923,6 +934,123 @@ def run(ctx):
             ctx.fail("errpath.%s[%s]: %s" % (pr["kind"], emeta[k][0].split(":")[0] + ":" + emeta[k][0].split(":")[1], emeta[k][0]), "%s: %s" % (pr["kind"], pr["detail"]), {"mode": "xslt", "line": elines[k]})
         else:
             ctx.oblige("harness batch exits cleanly (error-path stream, lines %d..%d)" % (a, b), "correspondence", False, pr["detail"])
+
+    # ---------------------------------------------------------------- 5d. error-message construction; URI resolution
+    try:
+        nmsg = json.load(open(os.path.join(common.GEN, "C03_Messages.json")))["count"]
+        maxmsg = int(re.search(r"def maxMessageLength : Nat := (\d+)", open(os.path.join(common.GEN, "C03_Messages.lean")).read()).group(1))
+    except Exception:
+        nmsg, maxmsg = 200, 1024
+    # every message of the catalogue x every getMessage overload x every length of the substituted texts, called directly
+    mlines = ["msgall %d %d" % (n, nmsg) for n in c03_gen.MESSAGE_LENGTHS]
+    mcases = c03_gen.long_message_cases()
+    mlines += ["%s %s %s" % ("xf" if k % 3 else "xc", hx(st), hx(src)) for k, (_, st, src) in enumerate(mcases)]
+    mkeys = ["msgall:%d" % n for n in c03_gen.MESSAGE_LENGTHS] + [key for key, _, _ in mcases]
+    mres, mextras = run_parallel(runner, "xslt", mlines, nproc, "msg")
+    mobs, mobs_k = [], []
+    for k, (key, (rep, prob), line) in enumerate(zip(mkeys, mres, mlines)):
+        ctx.case(nontrivial_key="message " + key, cls="message:" + key.split(":")[0] if not key.startswith("msgall") else "message:catalogue")
+        if prob:
+            ctx.fail("message.%s[%s]: %s" % (prob["kind"], key.split(":")[0], key), "%s while an error message with a substituted text of that length was built (%s): %s" % (prob["kind"], key, prob["detail"]),
+                     {"mode": "xslt", "line": line if len(line) < 3000 else line[:3000]})
+            continue
+        d = parse_reply(rep or "")
+        if d.get("esc", "none") != "none":
+            ctx.fail("message.escapes[%s]: %s" % (d["esc"], key), "exception %s left the entry point" % d["esc"], {"mode": "xslt", "line": line[:3000]})
+            continue
+        if key.startswith("msgall"):
+            if int(d.get("maxlen", "0")) > maxmsg or int(d.get("codes", "0")) != nmsg:
+                ctx.fail("message.longer-than-limit: " + key, "a message came back longer than kMaxMessageLength: " + (rep or ""), line)
+            continue
+        if d.get("fu") != "1":
+            ctx.fail("message.unusable-after: " + key, "follow-up known-good transformation failed after: " + (rep or "")[:300], {"mode": "xslt", "line": line[:3000]})
+        rc = int(d.get("rc", "-99"))
+        if rc in (7777, 7778, 7779):
+            ctx.fail("message.prebuilt-misbehaves[%d]: %s" % (rc, key), (rep or "")[:200], {"mode": "xslt", "line": line[:3000]})
+        else:
+            mobs.append("obs doTransform %d %s" % (rc, d.get("msg", "0")))
+            mobs_k.append(k)
+    if mobs:
+        for o, v, k in zip(mobs, model_lines(model, mobs, work, "mobs"), mobs_k):
+            if v != "ok":
+                ctx.fail("message.bad-report: %s %s" % (mkeys[k], o), "entry point returned %s" % o, {"mode": "xslt", "line": mlines[k][:3000]})
+    for pr in mextras:
+        a, b = pr["range"]
+        if pr["kind"] == "leak" and "xalanc" not in pr["detail"] and "Xalan" not in pr["detail"]:
+            ctx.extra.setdefault("external_leaks", []).append(pr["detail"][:300])
+            continue
+        culprit = bisect_report(runner, "xslt", mlines[a:b])
+        ctx.fail("message.%s: %s" % (pr["kind"], mkeys[a + culprit] if culprit is not None else "?"), "%s: %s" % (pr["kind"], pr["detail"]),
+                 {"mode": "xslt", "line": (mlines[a + culprit] if culprit is not None else "batch")[:3000]})
+
+    # XalanParsedURI::resolve called directly on unterminated exactly-sized copies (reads past the end show under ASan), compared with the Lean model
+    upairs = [(rf, b) for b in c03_gen.URI_BASES for rf in c03_gen.URI_REFS]
+    for _ in range(300 if not ctx.thorough else 5000):
+        segs = ["..", ".", "a", "", "bb", "...", "..x", "x..", "%2e"]
+        rf = r.choice(["", "/", "//h/", "s:", "?"]) * r.below(2) + "/".join(r.choice(segs) for _ in range(r.range(0, 9))) + r.choice(["", "/", "?q", "#f", "/.."])
+        b = r.choice(["", "s:", "s://h", "s://h/", "file:", "s:p", ""]) + "/".join(r.choice(segs) for _ in range(r.range(0, 6))) + r.choice(["", "/", "?q", "#f"])
+        upairs.append((rf, b))
+    ulines = ["uri %s %s" % (hx(rf), hx(b)) for rf, b in upairs]
+    ures, uextras = run_parallel(runner, "xslt", ulines, min(nproc, 4), "uri")
+    umodel = model_lines(model, ulines, work, "uri")
+    uagree, udis, n_over, n_notrun = True, [], 0, 0
+    for (rf, b), (rep, prob), mv, line in zip(upairs, ures, umodel, ulines):
+        ctx.case(nontrivial_key=line, cls="uri:direct")
+        if prob:
+            ctx.fail("uri.%s: resolve(%r, base %r)" % (prob["kind"], rf[:60], b[:60]), "XalanParsedURI::resolve: %s" % prob["detail"], {"mode": "xslt", "line": line})
+            continue
+        if rep is None:
+            n_notrun += 1       # the harness gave up after 60 crashes in this batch: these lines were never executed (no statement about them)
+            continue
+        d = parse_reply(rep or "")
+        if d.get("esc", "none") != "none":
+            ctx.fail("uri.escapes[%s]: resolve(%r, base %r)" % (d["esc"], rf[:60], b[:60]), "exception left XalanParsedURI::resolve", {"mode": "xslt", "line": line})
+        elif d.get("out") != mv:
+            uagree = False
+            udis.append({"ref": rf, "base": b, "impl": d.get("out"), "model": mv})
+        elif d.get("pout") != d.get("out"):
+            n_over += 1
+            if n_over > 3:      # one cause: the first three pairs are enough as replays
+                continue
+            # the same call on buffers that are followed by ":/" behind the stated lengths gave another result: an element past the end was read
+            ctx.fail("uri.overread: resolve(%r, base %r)" % (rf[:60], b[:60]),
+                     "XalanParsedURI::resolve(relative, relativeLen, base, baseLen) reads behind the stated length: result %r on exactly sized buffers, %r when ':/' or '//' follows them" % (
+                         bytes.fromhex(d.get("out", "") if d.get("out") != "-" else "").decode("latin-1")[:80], bytes.fromhex(d.get("pout", "") if d.get("pout") != "-" else "").decode("latin-1")[:80]),
+                     {"mode": "xslt", "line": line})
+    for pr in uextras:
+        a, bb = pr["range"]
+        culprit = bisect_report(runner, "xslt", ulines[a:bb])
+        ctx.fail("uri.%s: %s" % (pr["kind"], ulines[a + culprit][:100] if culprit is not None else "?"), "%s: %s" % (pr["kind"], pr["detail"]),
+                 {"mode": "xslt", "line": ulines[a + culprit] if culprit is not None else "batch"})
+    ctx.extra["uri_overread_pairs"] = n_over
+    if n_notrun:
+        ctx.fail("uri.not-run", "%d of %d direct XalanParsedURI::resolve calls were not executed: the harness crashed 60 times in one batch (see the uri.crash entries)" % (n_notrun, len(upairs)), {"mode": "xslt", "line": "batch"})
+    ctx.oblige("correspondence: XalanParsedURI::resolve(reference, base) = Lean resolveStrings on %d base x reference pairs" % len(upairs), "correspondence", uagree, json.dumps(udis[:4]))
+    # … and through xsl:include / xsl:import / document() with the base URI given as the system id of stream inputs
+    ucases = c03_gen.uri_stylesheets()
+    xlines2 = ["xu %s %s %s %s" % (hx(st), hx(src), hx(sid), hx(did)) for _, st, src, sid, did in ucases]
+    xres2, xextras2 = run_parallel(runner, "xslt", xlines2, nproc, "urisheet")
+    for (key, st, src, sid, did), (rep, prob), line in zip(ucases, xres2, xlines2):
+        ctx.case(nontrivial_key="uri " + key, cls="uri:" + key.split(":")[0])
+        if prob:
+            ctx.fail("uri.%s[%s]: %s" % (prob["kind"], key.split(":")[0], key), "%s resolving a reference against the base URI of a stream input (%s): %s" % (prob["kind"], key, prob["detail"]),
+                     {"mode": "xslt", "line": line})
+            continue
+        d = parse_reply(rep or "")
+        if d.get("esc", "none") != "none":
+            ctx.fail("uri.escapes[%s]: %s" % (d["esc"], key), "exception %s left the entry point" % d["esc"], {"mode": "xslt", "line": line})
+        elif d.get("fu") != "1":
+            ctx.fail("uri.unusable-after: " + key, "follow-up known-good transformation failed after: " + (rep or "")[:300], {"mode": "xslt", "line": line})
+        elif int(d.get("rc", "0")) != 0 and int(d.get("msg", "0")) == 0:
+            ctx.fail("uri.empty-message: " + key, "non-zero status with an empty message: " + (rep or "")[:200], {"mode": "xslt", "line": line})
+    for pr in xextras2:
+        a, bb = pr["range"]
+        if pr["kind"] == "leak" and "xalanc" not in pr["detail"] and "Xalan" not in pr["detail"]:
+            ctx.extra.setdefault("external_leaks", []).append(pr["detail"][:300])
+            continue
+        culprit = bisect_report(runner, "xslt", xlines2[a:bb])
+        ctx.fail("uri.%s[sheet]: %s" % (pr["kind"], ucases[a + culprit][0] if culprit is not None else "?"), "%s: %s" % (pr["kind"], pr["detail"]),
+                 {"mode": "xslt", "line": xlines2[a + culprit] if culprit is not None else "batch"})
 
     # sources / stylesheets named by system id or URL (file, directory, unreachable host, malformed URL) instead of a stream
     for u in ["nonexistent-file.xml", "/", ".", "http://localhost:1/x.xml", "ftp://x/y", "file:///nonexistent", "http://[bad", "bogus://x", "a b c",
